@@ -679,7 +679,69 @@ func init() {
 		}
 		return fmt.Sprintf("same %d", len(lines))
 	}
+	// conclookup <goroutines> <seed>: concurrent registry lookups and generic builder calls with names in spellings the
+	// process has not seen before (random upper/lower case), compared with a sequential reference built from the
+	// canonical names: independent values built concurrently = the values built one after another
+	runners["conclookup"] = func(a []string) string {
+		g := atoi(a[0])
+		rng := newRand(int64(atoi(a[1])))
+		names := namesFrom(verifRoot() + "/lean/OFV/Gen/Registry.lean")
+		if len(names) == 0 {
+			return "nonames"
+		}
+		type job struct {
+			name, spelled string
+			val           uint32
+		}
+		var jobs []job
+		for i := 0; i < 40*g; i++ {
+			n := names[rng.Intn(len(names))]
+			sp := []byte(n)
+			for k := range sp {
+				if rng.Intn(2) == 0 && sp[k] >= 'A' && sp[k] <= 'Z' {
+					sp[k] += 'a' - 'A'
+				}
+			}
+			jobs = append(jobs, job{n, string(sp), rng.Uint32()})
+		}
+		ref := func(name string) string {
+			f, err := of.FindFieldHeaderByName(name, false)
+			if err != nil {
+				return "err"
+			}
+			return fmt.Sprintf("%d/%d/%d/%v", f.Class, f.Field, f.Length, f.HasMask)
+		}
+		want := make([]string, len(jobs))
+		for i, j := range jobs {
+			want[i] = ref(j.name)
+		}
+		var bad atomic.Int64
+		var wg sync.WaitGroup
+		for w := 0; w < g; w++ {
+			wg.Add(1)
+			go func(w int) {
+				defer wg.Done()
+				for i := w; i < len(jobs); i += g {
+					if ref(jobs[i].spelled) != want[i] {
+						bad.Add(1)
+					}
+				}
+			}(w)
+		}
+		wg.Wait()
+		if bad.Load() > 0 {
+			return fmt.Sprintf("differ %d", bad.Load())
+		}
+		return fmt.Sprintf("same %d", len(jobs))
+	}
 	families["C14"] = func(c *Ctx) {
+		for _, g := range []int{4, 16, 64} {
+			// in a process of its own: a data race on a Go map is a fatal error that cannot be recovered
+			if c.only == nil || c.only["conclookup"] {
+				line := fmt.Sprintf("conclookup %d %d", g, c.rng.Intn(100000))
+				c.emit(line, runIsolatedOnce(line))
+			}
+		}
 		for _, g := range []int{2, 3, 4, 8, 16, 32, 64} {
 			for _, n := range []int{1, 10, 1000} {
 				c.run("xids", g, n)
